@@ -74,7 +74,9 @@ def infer_call_of_leaf(context, leaf, cut_own_trailer=False):
             # Basically happens with foo[:] when the cursor is on the colon
             from jedi.inference.base_value import NO_VALUES
             return NO_VALUES
-        if trailer.type == 'atom':
+        if trailer.type == 'atom' \
+                and leaf in (trailer.children[0], trailer.children[-1]):
+            # On a bracket of e.g. `[x]` or `(x)`, infer the whole atom.
             return context.infer_node(trailer)
         return context.infer_node(leaf)
 
